@@ -361,17 +361,20 @@ impl CallStack {
             context_index = self.get_current_element_index() + 1;
         }
 
-        let context_element = self
+        // contextIndex 0 means global: neither that nor an index past the end
+        // of the callstack is a frame that holds temporaries
+        let context_element = match self
             .get_callstack_mut()
-            .get_mut((context_index - 1) as usize)
-            .unwrap();
-
-        if !declare_new && !context_element.temporary_variables.contains_key(&name) {
-            return Err(StoryError::InvalidStoryState(format!(
-                "Could not find temporary variable to set: {}",
-                name
-            )));
-        }
+            .get_mut((context_index as usize).wrapping_sub(1))
+        {
+            Some(el) if declare_new || el.temporary_variables.contains_key(&name) => el,
+            _ => {
+                return Err(StoryError::InvalidStoryState(format!(
+                    "Could not find temporary variable to set: {}",
+                    name
+                )));
+            }
+        };
 
         let old_value = context_element.temporary_variables.get(&name).cloned();
 
@@ -411,10 +414,13 @@ impl CallStack {
             context_index = self.get_current_element_index() + 1;
         }
 
-        let context_element = self.get_callstack().get((context_index - 1) as usize);
-        let var_value = context_element.unwrap().temporary_variables.get(name);
+        // contextIndex 0 (global) or one past the end of the callstack is not a
+        // frame, so it holds no temporaries
+        let context_element = self
+            .get_callstack()
+            .get((context_index as usize).wrapping_sub(1))?;
 
-        var_value.cloned()
+        context_element.temporary_variables.get(name).cloned()
     }
 
     pub fn push(
